@@ -31,6 +31,8 @@ def obs_program(params):
     scripts = {int(h): {int(k): v for k, v in d.items()} for h, d in params.get("scripts", {}).items()}
     fail_start = {int(k): v for k, v in params.get("fail_start", {}).items()}
     fail_ctor = {int(k): v for k, v in params.get("fail_ctor", {}).items()}
+    em_asc = params.get("em_order", "asc") == "asc"
+    h_asc = params.get("h_order", "asc") == "asc"
     watches_used = sorted({op[-1] for ops in list(threads.values()) + [o for d in scripts.values() for o in d.values()]
                            for op in ops if op[0] in ("schedule", "unschedule", "add", "remove")})
 
@@ -66,9 +68,10 @@ def obs_program(params):
                     state["fs"][w] -= 1
                     raise OSError(24, "scripted: emitter cannot be started")
 
-            # deterministic set iteration order (sets of emitters / handlers are hashed by id() otherwise)
+            # deterministic set iteration order (sets of emitters / handlers are hashed by id() otherwise); the order
+            # itself is a parameter: the library iterates these sets and nothing promises any particular order
             def __hash__(self):
-                return self.eid
+                return self.eid if em_asc else 7 - self.eid
 
             def __eq__(self, other):
                 return self is other
@@ -108,7 +111,7 @@ def obs_program(params):
                     do(op)
 
             def __hash__(self):
-                return self.hid
+                return self.hid if h_asc else 7 - self.hid
 
             def __eq__(self, other):
                 return self is other
